@@ -1,6 +1,7 @@
 package kmodel
 
 import (
+	metav1 "k8s.io/apimachinery/pkg/apis/meta/v1"
 	"fmt"
 	"sort"
 	"strings"
@@ -29,7 +30,7 @@ func deepCopy(c map[string]any) map[string]any {
 }
 
 // validate implements the admission rules the model knows.
-func validate(k Key, c map[string]any) *apierrors.StatusError {
+func (s *Store) validate(k Key, c map[string]any) *apierrors.StatusError {
 	var errs field.ErrorList
 	ctrl := 0
 	for i, r := range OwnerRefs(c) {
@@ -62,7 +63,14 @@ func validate(k Key, c map[string]any) *apierrors.StatusError {
 	}
 	// admission that cannot be consulted at all (failing webhook, overloaded server): status errors
 	// that say neither "invalid" nor "forbidden"
-	switch Annotations(c)[RejectAnnotation] {
+	mode := Annotations(c)[RejectAnnotation]
+	if m, ok := s.Admission[k]; ok {
+		mode = m // admission for this object is broken right now (scripted by the harness)
+	}
+	switch mode {
+	case "noreason":
+		// what an overloaded or half-broken API server / proxy answers: a 500 without a reason
+		return &apierrors.StatusError{ErrStatus: metav1.Status{Status: metav1.StatusFailure, Code: 500, Message: "etcdserver: leader changed (scripted)"}}
 	case "internal":
 		return apierrors.NewInternalError(fmt.Errorf("failed calling webhook (scripted): connection refused"))
 	case "unavailable":
@@ -161,7 +169,7 @@ func (s *Store) Create(k Key, body map[string]any, applied map[string]bool, dryR
 	if _, ok := s.Objs[k]; ok {
 		return nil, apierrors.NewAlreadyExists(gr(k), k.Name)
 	}
-	if e := validate(k, body); e != nil {
+	if e := s.validate(k, body); e != nil {
 		return nil, e
 	}
 	c := deepCopy(body)
@@ -235,7 +243,7 @@ func (s *Store) Update(k Key, body map[string]any, sub string, dryRun bool) (map
 		neu["apiVersion"] = old.Content["apiVersion"]
 		neu["kind"] = old.Content["kind"]
 	}
-	if e := validate(k, neu); e != nil {
+	if e := s.validate(k, neu); e != nil {
 		return nil, e
 	}
 	return s.finish(k, old, neu, nil, dryRun), nil
@@ -292,7 +300,7 @@ func (s *Store) MergePatch(k Key, patch map[string]any, sub string, dryRun bool)
 		neu["apiVersion"] = old.Content["apiVersion"]
 		neu["kind"] = old.Content["kind"]
 	}
-	if e := validate(k, neu); e != nil {
+	if e := s.validate(k, neu); e != nil {
 		return nil, e
 	}
 	return s.finish(k, old, neu, nil, dryRun), nil
@@ -515,7 +523,7 @@ func (s *Store) Apply(k Key, body map[string]any, force bool, dryRun bool) (map[
 	for _, p := range ps {
 		setPath(neu, p, leaves[p])
 	}
-	if e := validate(k, neu); e != nil {
+	if e := s.validate(k, neu); e != nil {
 		return nil, e
 	}
 	return s.finish(k, old, neu, applied, dryRun), nil
